@@ -37,7 +37,7 @@ SnpsOK(e) ==
                   \* with a reference the columns come in coordinate order on the reference strand
                   /\ ColumnsOf(e.seqs) = [j \in 1..Len(c.sites) |-> c.alleles[j]]))
 
-AnyOK(e) == e.panic = "" /\ WellFormedSnps(e.seqs, e.ctx.missing[1], e.ctx.missing[2])
+AnyOK(e) == e.panic = "" /\ (e.refused \/ WellFormedSnps(e.seqs, e.ctx.missing[1], e.ctx.missing[2]))
 
 IndelsOK(e) ==
    LET c == e.ctx IN
